@@ -2,6 +2,7 @@ SPECIFICATION TSpec
 CONSTANTS Names = {"x"}
           MaxVer = 8
           Writer = "direct"
+          CacheSize = 3
           Reader = "newest"
 CONSTRAINT TraceConstraint
 POSTCONDITION TracePost
